@@ -136,6 +136,7 @@ def aggregate(cid, mod, tier, seed, records, lost, wall, verbose=False):
     violations = []
     known_hits = {}
     max_steps = 0
+    viol_strata = {}
     for rec in records:
         v = rec["verdict"]
         if v == "violated" and rec.get("finding") in open_findings:
@@ -143,6 +144,7 @@ def aggregate(cid, mod, tier, seed, records, lost, wall, verbose=False):
             known_hits.setdefault(rec["finding"], []).append(rec)
         elif v == "violated":
             violations.append(rec)
+            viol_strata[rec.get("stratum", "-")] = viol_strata.get(rec.get("stratum", "-"), 0) + 1
         verdicts[v] = verdicts.get(v, 0) + 1
         if v == "inconclusive":
             r = rec.get("why", "?")[:80]
@@ -207,6 +209,7 @@ def aggregate(cid, mod, tier, seed, records, lost, wall, verbose=False):
             "verdicts": verdicts,
             "inconclusive_reasons": reasons,
             "strata": dict(sorted(strata.items())),
+            "violated_strata": dict(sorted(viol_strata.items())),
             "monitor_evaluations": dict(sorted(monitors.items())),
             "deciding_monitors_unreached": unreached,
             "library_functions_entered": sorted(reached),
